@@ -61,6 +61,9 @@ def programs(tier):
     menu2 = [["start", "a"], ["end", "b"]]
     out.append(("plain-feasible", P(fixed("a", 1), fixed("b", 1), H=2), {}, [["start", "a"]], 5))
     out.append(("plain-feasible/debug", P(fixed("a", 1), fixed("b", 1), H=2), {"debug": True}, [["start", "a"]], 3))
+    # a solver built for a given logic goes through another construction path (z3.SolverFor)
+    out.append(("one-schedule/logics", P(fixed("a", 2), H=2), {"logics": "QF_LIA"}, [["start", "a"]], 4))
+    out.append(("two-schedules/logics", P(fixed("a", 1), H=2), {"logics": "QF_IDL"}, [["start", "a"]], 5))
     out.append(("plain-infeasible", P(fixed("a", 2), con("TaskEndBefore", "c", task=R("a"), value=1), H=2), {}, [["start", "a"]], 4))
     out.append(("plain-optional", P(fixed("a", 1, optional=True), fixed("b", 1), H=2), {}, [["start", "b"], ["start", "a"]], 4))
     out.append(("optional-objective", P(fixed("a", 2, optional=True), new("ObjectiveMinimizeFlowtime", "o"), H=2), {}, [["start", "a"]], 4))
@@ -160,6 +163,26 @@ def job(j):
                             record(h, obs, (len(obs), "second solver on the same problem returned a schedule outside the admitted set"))
                     except Exception as ex_:
                         record(h, obs, (len(obs), f"second solver on the same problem raised {type(ex_).__name__}: {str(ex_)[:80]}"))
+        # side activities: every history up to depth 3 with ONE read-only report of the solver, or the declaration
+        # of another problem, inserted at every position after the first call and before the last one - none of them
+        # may change what the calls answer
+        if j.get("side"):
+            base_depth = 3
+            for L in range(2, base_depth + 1):
+                for seq in itertools.product(alphabet, repeat=L):
+                    if L == 3 and tier == "quick" and seq[0][0] != "solve":
+                        continue  # (quick: the three-call histories that start by solving)
+                    for pos in range(1, L):
+                        for side in hs.SIDE_OPS:
+                            h = [list(e) for e in seq[:pos]] + [[side]] + [list(e) for e in seq[pos:]]
+                            obs, env, sv, b = hs.run_history(program, h, solver_kw=skw, leaves=leaves, steer="lazy")
+                            res["runs"] += 1
+                            res["calls"] += len(h)
+                            res["outcomes"].add(repr([(o["kind"], o.get("timing")) for o in obs]))
+                            bad, p = judge(program, leaves, obs, objective, interrupted)
+                            res["states"].add((p.key(), sv._initialized, side))
+                            if bad:
+                                record(h, obs, bad)
         for k, (cnt, inst, sig) in sigs.items():
             res["viol"].append({"sig": sig, "count": cnt, "instance": inst})
         if j.get("want_sample"):
@@ -251,7 +274,9 @@ def main(tier):
     js = []
     for i, (lab, program, skw, menu, depth) in enumerate(programs(tier)):
         js.append({"program": program, "solver": skw, "menu": menu, "depth": depth if tier == "thorough" else min(depth, 4),
-                   "family": lab, "tier": tier, "want_sample": i % 4 == 0})
+                   "family": lab, "tier": tier, "want_sample": i % 4 == 0,
+                   "side": lab in ("plain-feasible", "plain-feasible/debug", "plain-optional", "min-makespan/incremental/max_iter=None", "min-makespan/optimize",
+                                   "two-objectives/incremental", "one-schedule/logics")})
     js = common.rotate(js)
     nontrivial = 0
     for status, r in run.pmap(job, js, chunk=1):
